@@ -1,49 +1,41 @@
 import ZV.Model.C18
 import ZV.Proofs.C18
+import ZV.Proofs.C18Big
+import ZV.Proofs.C18Oid
+import ZV.Proofs.C18Leaf
+import ZV.Proofs.C18Opt
+import ZV.Proofs.C18Seq
+import ZV.Proofs.C18Sort
+import ZV.Proofs.C18Dom
+import ZV.Proofs.C18Main
 /-!
   C18 — ASN.1 marshalling round-trips and is idempotent.
 
   `header_roundtrip`, `base128_roundtrip`: the identifier/length framing is inverted exactly (both modes).
-  `unmarshal_marshal`: for every schema / parameters / value in the decidable fragment `InDomain`
-  (arbitrarily nested structs over bool, int/int32/int64/Enumerated, []byte and string fields with every combination of IMPLICIT / EXPLICIT /
-  APPLICATION / PRIVATE tags, `set`, and the string kinds ia5 / printable / numeric / utf8; no OPTIONAL, no omitempty),
-  strict `Unmarshal (Marshal v ++ rest) = (v, rest)`; corollaries: all bytes consumed, re-marshalling is the identity.
-  Everything outside `InDomain` (*big.Int, OIDs, bit strings, RawValue, SEQUENCE OF / SET OF, OPTIONAL / DEFAULT) is
-  tied to the Go code by correspondence (T2) and the round-trip oracle (T3) only — see tools/props/C18.json.
+
+  `unmarshal_marshal_equiv` (the property, on the whole modelled type language): for every schema / parameters / value in
+  the decidable domain `InDomain` (ZV.Proofs.C18Dom) — arbitrarily nested structs, SEQUENCE OF and SET OF (`set` parameter
+  and `…SET`-named slice types) over bool, int/int32/int64/Enumerated, *big.Int (any size), OBJECT IDENTIFIER, BIT STRING,
+  Flag, RawValue, []byte and string, with every combination of IMPLICIT / EXPLICIT / APPLICATION / PRIVATE tags, the string
+  kinds, OPTIONAL, DEFAULT and omitempty — strict `Unmarshal (Marshal v ++ rest) = (v', rest)` with `v ≈ v'` (`VEq`: SET OF
+  up to permutation, nil = empty for slices) and `Marshal v' = Marshal v` (idempotence).  If the top-level value itself is
+  left out (OPTIONAL at top level), `rest` must let the decoder see that (`Skips`).
+  `unmarshal_marshal`: on the decidable sub-domain `Exact` (no SET OF, non-nil slices) `v' = v`.
+  `marshal_idempotent`, `unmarshal_marshal_all`: corollaries.  Content-level theorems: `int64_content_roundtrip`,
+  `bigint_content_roundtrip`, `oid_content_roundtrip`, `bitstring_content_roundtrip`, `set_sort_*`.
+
+  Not covered by theorems (correspondence T2 / oracle T3 only): time.Time, interface{}, RawContent (outside the model);
+  Go `int` overflow of lengths ≥ 2^31.  See tools/props/C18.json.
 -/
 namespace ZV.C18
-
-/-- decidable form of `Good` -/
-def goodB (p : Params) : Bool :=
-  !p.optional && !(p.application && p.priv) && !p.omitEmpty &&
-  (match p.tag with | some tg => decide (tg ≤ 2147483647) | none => !p.explicit) &&
-  (p.stringType == 0 || p.stringType == 12 || p.stringType == 18 || p.stringType == 19 || p.stringType == 22)
-
-theorem goodB_good (p : Params) (h : goodB p = true) : Good p := by
-  unfold goodB at h
-  simp only [Bool.and_eq_true, Bool.not_eq_true', Bool.or_eq_true, beq_iff_eq, Bool.and_eq_false_imp] at h
-  obtain ⟨⟨⟨⟨h1, h2⟩, h3⟩, h4⟩, h5⟩ := h
-  refine ⟨h1, fun ⟨a, b⟩ => by simp [h2 a] at b, ?_, ?_, h3, by omega⟩
-  · intro tg ht; rw [ht] at h4; simpa using h4
-  · intro he ht; rw [ht] at h4; simp [he] at h4
-
-/-- the fragment for which the round trip is PROVED (decidable) -/
-def InDomain : Schema → Params → Val → Bool
-  | .bool, p, .bool _ => goodB p
-  | .octets, p, .bytes _ => goodB p
-  | .str, p, .bytes bs => goodB p && strOK p bs
-  | .int64, p, .int i => goodB p && decide (-9223372036854775808 ≤ i) && decide (i < 9223372036854775808)
-  | .int32, p, .int i => goodB p && decide (-2147483648 ≤ i) && decide (i ≤ 2147483647)
-  | .enum, p, .int i => goodB p && decide (-2147483648 ≤ i) && decide (i ≤ 2147483647)
-  | .struct fs, p, v => goodB p && InDomain fs {} v
-  | .fnil, _, .vnil => true
-  | .fcons p s rest, _, .vcons v vs => InDomain s p v && InDomain rest {} vs
-  | _, _, _ => false
 
 /-- header round trip (identifier and length octets), both modes -/
 theorem header_roundtrip (perm : Bool) (t : TL) (hc : t.cls < 4) (ht : t.tag ≤ 2147483647) (hl : t.len < 2147483648)
     (rest : Bytes) : parseTL perm (appendTL t ++ rest) = .ok (t, rest) :=
   parseTL_appendTL perm t hc ht hl rest
+
+example : ∃ t : TL, t.cls < 4 ∧ t.tag ≤ 2147483647 ∧ t.len < 2147483648 ∧ t.tag ≥ 31 ∧ t.len ≥ 128 :=
+  ⟨{ cls := 2, tag := 1000, len := 300, compound := true }, by decide⟩
 
 /-- `parseBase128Int ∘ appendBase128Int = id` on `[0, 2^31)` (tag numbers, OID arcs) -/
 theorem base128_roundtrip (n : Nat) (h : n ≤ 2147483647) (rest : Bytes) :
@@ -53,141 +45,164 @@ theorem base128_roundtrip (n : Nat) (h : n ≤ 2147483647) (rest : Bytes) :
   simp only [this, if_false, Int.toNat_natCast]
   exact base128_digits n h rest
 
-theorem roundtrip_both (s : Schema) :
-    (∀ p v enc rest, InDomain s p v = true → makeField s p v = .ok enc → enc.length < 2147483648 →
-        parseField false s p (enc ++ rest) = .ok (v, rest)) ∧
-    (∀ v enc rest, InDomain s {} v = true → makeFields s v = .ok enc → enc.length < 2147483648 →
-        parseFields false s (enc ++ rest) = .ok (v, rest)) := by
-  induction s with
-  | bool =>
-    refine ⟨fun p v enc rest hd hm hl => ?_, fun v enc rest hd hm hl => by simp [makeFields] at hm⟩
-    cases v <;> simp only [InDomain, Bool.false_eq_true] at hd
-    simp only [makeField, parseField] at hm ⊢
-    exact bool_field_roundtrip p _ enc rest (goodB_good p hd) hm hl
-  | octets =>
-    refine ⟨fun p v enc rest hd hm hl => ?_, fun v enc rest hd hm hl => by simp [makeFields] at hm⟩
-    cases v <;> simp only [InDomain, Bool.false_eq_true] at hd
-    simp only [makeField, parseField] at hm ⊢
-    exact octets_field_roundtrip p _ enc rest (goodB_good p hd) hm hl
-  | str =>
-    refine ⟨fun p v enc rest hd hm hl => ?_, fun v enc rest hd hm hl => by simp [makeFields] at hm⟩
-    cases v <;> simp only [InDomain, Bool.false_eq_true, Bool.and_eq_true] at hd
-    simp only [makeField, parseField] at hm ⊢
-    exact str_field_roundtrip p _ enc rest (goodB_good p hd.1) hd.2 hm hl
-  | int64 =>
-    refine ⟨fun p v enc rest hd hm hl => ?_, fun v enc rest hd hm hl => by simp [makeFields] at hm⟩
-    cases v <;> simp only [InDomain, Bool.false_eq_true, Bool.and_eq_true, decide_eq_true_eq] at hd
-    simp only [makeField, parseField] at hm ⊢
-    exact int64_field_roundtrip p _ enc rest (goodB_good p hd.1.1) hd.1.2 hd.2 hm hl
-  | int32 =>
-    refine ⟨fun p v enc rest hd hm hl => ?_, fun v enc rest hd hm hl => by simp [makeFields] at hm⟩
-    cases v <;> simp only [InDomain, Bool.false_eq_true, Bool.and_eq_true, decide_eq_true_eq] at hd
-    simp only [makeField, parseField] at hm ⊢
-    exact int32_field_roundtrip p _ enc rest (goodB_good p hd.1.1) hd.1.2 hd.2 hm hl
-  | enum =>
-    refine ⟨fun p v enc rest hd hm hl => ?_, fun v enc rest hd hm hl => by simp [makeFields] at hm⟩
-    cases v <;> simp only [InDomain, Bool.false_eq_true, Bool.and_eq_true, decide_eq_true_eq] at hd
-    simp only [makeField, parseField] at hm ⊢
-    exact enum_field_roundtrip p _ enc rest (goodB_good p hd.1.1) hd.1.2 hd.2 hm hl
-  | struct fs ih =>
-    refine ⟨fun p v enc rest hd hm hl => ?_, fun v enc rest hd hm hl => by simp [makeFields] at hm⟩
-    simp only [InDomain, Bool.and_eq_true] at hd
-    have hg := goodB_good p hd.1
-    simp only [makeField] at hm
-    rw [omitted_false _ _ _ hg] at hm
-    simp only [Bool.false_eq_true, if_false] at hm
-    by_cases h1 : p.timeType ≠ 0
-    · rw [if_pos h1] at hm; cases hm
-    rw [if_neg h1] at hm
-    by_cases h2 : p.stringType ≠ 0
-    · rw [if_pos h2] at hm; cases hm
-    rw [if_neg h2] at hm
-    cases hb : makeFields fs v with
-    | err => rw [hb] at hm; cases hm
-    | panic => rw [hb] at hm; cases hm
-    | ok body =>
-      rw [hb] at hm
-      have henc : enc = wrap p (if p.set = true then 17 else 16) true body := by simpa using hm.symm
-      subst henc
-      have hbl : body.length < 2147483648 := by
-        have := wrap_length_ge p (if p.set = true then 17 else 16) true body; omega
-      simp only [parseField]
-      rw [append_isEmpty_false (wrap_nonempty _ _ _ _)]
-      simp only [Bool.false_eq_true, if_false]
-      rw [parsePre_wrap false (.struct fs) p 16 _ true body rest rfl hg hl (by split_ifs <;> omega)
-        (by intro _; simp only [substTag]; split_ifs <;> simp_all)]
-      simp only
-      have := ih.2 v body [] hd.2 hb hbl
-      rw [List.append_nil] at this
-      rw [this]
-  | fnil =>
-    refine ⟨fun p v enc rest hd hm hl => by simp [makeField] at hm, fun v enc rest hd hm hl => ?_⟩
-    cases v <;> simp only [InDomain, Bool.false_eq_true] at hd
-    simp only [makeFields, Res.ok.injEq] at hm
-    subst hm
-    simp [parseFields]
-  | fcons p s r ihs ihr =>
-    refine ⟨fun p v enc rest hd hm hl => by simp [makeField] at hm, fun v enc rest hd hm hl => ?_⟩
-    cases v <;> simp only [InDomain, Bool.false_eq_true, Bool.and_eq_true] at hd
-    rename_i v vs
-    simp only [makeFields] at hm
-    cases h1 : makeField s p v with
-    | err => rw [h1] at hm; cases hm
-    | panic => rw [h1] at hm; cases hm
-    | ok b =>
-      rw [h1] at hm
-      cases h2 : makeFields r vs with
-      | err => rw [h2] at hm; cases hm
-      | panic => rw [h2] at hm; cases hm
-      | ok bs =>
-        rw [h2] at hm
-        simp only [Res.ok.injEq] at hm
-        subst hm
-        simp only [List.length_append] at hl
-        simp only [parseFields, List.append_assoc]
-        rw [ihs.1 p v b (bs ++ rest) hd.1 h1 (by omega)]
-        simp only
-        rw [ihr.2 vs bs rest hd.2 h2 (by omega)]
-  | _ =>
-    refine ⟨fun p v enc rest hd hm hl => ?_, fun v enc rest hd hm hl => by simp [makeFields] at hm⟩
-    cases v <;> simp [InDomain] at hd
+/-- **C18**: for every type, parameters and value of the domain, strict Unmarshal of Marshal's output followed by any
+    `rest` returns a value `v' ≈ v` (SET OF up to permutation, nil = empty) and exactly `rest`, and `v'` marshals to the
+    same bytes.  (`hr`: only relevant when the top-level value itself is left out by Marshal.) -/
+theorem unmarshal_marshal_equiv (s : Schema) (p : Params) (v : Val) (enc rest : Bytes)
+    (hd : InDomain s p v = true) (hm : marshal s p v = .ok enc) (hl : enc.length < 2147483648)
+    (hr : omitted s p v = true → Skips s p rest) :
+    ∃ v', unmarshal false s p (enc ++ rest) = .ok (v', rest) ∧ VEq s p v v' ∧ marshal s p v' = .ok enc := by
+  obtain ⟨v', h1, h2, h3, _⟩ := (roundtrip_both s).1 p v enc rest hd hm hl hr
+  exact ⟨v', h1, h2, h3⟩
 
-/-- **C18 (proved fragment)**: strict Unmarshal of Marshal's output followed by any `rest` returns the value and
-    exactly `rest`. -/
+/-- **C18 (identical value)**: on the sub-domain `Exact` (no SET OF, non-nil slices) the value comes back identically. -/
 theorem unmarshal_marshal (s : Schema) (p : Params) (v : Val) (enc rest : Bytes)
-    (hd : InDomain s p v = true) (hm : marshal s p v = .ok enc) (hl : enc.length < 2147483648) :
-    unmarshal false s p (enc ++ rest) = .ok (v, rest) :=
-  (roundtrip_both s).1 p v enc rest hd hm hl
+    (hd : InDomain s p v = true) (he : Exact s p v = true) (hm : marshal s p v = .ok enc) (hl : enc.length < 2147483648)
+    (hr : omitted s p v = true → Skips s p rest) :
+    unmarshal false s p (enc ++ rest) = .ok (v, rest) := by
+  obtain ⟨v', h1, _, _, h4, _⟩ := (roundtrip_both s).1 p v enc rest hd hm hl hr
+  rw [← h4 he]; exact h1
 
 /-- consumes all bytes -/
 theorem unmarshal_marshal_all (s : Schema) (p : Params) (v : Val) (enc : Bytes)
     (hd : InDomain s p v = true) (hm : marshal s p v = .ok enc) (hl : enc.length < 2147483648) :
-    unmarshal false s p enc = .ok (v, []) := by
-  have := unmarshal_marshal s p v enc [] hd hm hl
-  rwa [List.append_nil] at this
+    ∃ v', unmarshal false s p enc = .ok (v', []) ∧ VEq s p v v' := by
+  obtain ⟨v', h1, h2, _⟩ := unmarshal_marshal_equiv s p v enc [] hd hm hl (fun _ => Or.inl rfl)
+  rw [List.append_nil] at h1
+  exact ⟨v', h1, h2⟩
 
 /-- idempotence: re-marshalling what strict Unmarshal decoded from Marshal's output reproduces the bytes -/
 theorem marshal_idempotent (s : Schema) (p : Params) (v v' : Val) (enc r : Bytes)
     (hd : InDomain s p v = true) (hm : marshal s p v = .ok enc) (hl : enc.length < 2147483648)
     (hu : unmarshal false s p enc = .ok (v', r)) : marshal s p v' = .ok enc := by
-  rw [unmarshal_marshal_all s p v enc hd hm hl] at hu
-  simp only [Res.ok.injEq, Prod.mk.injEq] at hu
-  rw [← hu.1]; exact hm
+  obtain ⟨w, h1, _, h3⟩ := unmarshal_marshal_equiv s p v enc [] hd hm hl (fun _ => Or.inl rfl)
+  rw [List.append_nil, hu] at h1
+  simp only [Res.ok.injEq, Prod.mk.injEq] at h1
+  rw [h1.1]; exact h3
 
 /-- INTEGER content round trip for every int64 (two's complement, minimal length) -/
 theorem int64_content_roundtrip (i : Int) (h1 : -9223372036854775808 ≤ i) (h2 : i < 9223372036854775808) :
     parseInt64 false (encInt64 i) = .ok i := parseInt64_encInt64 i h1 h2
 
-/-- a non-trivial member of the fragment (with `ZV.C20.perm_extends` this is a corollary; stated here directly) -/
-example : InDomain
-    (.struct (.fcons { tag := some 0, explicit := true } .bool (.fcons { stringType := 12, tag := some 1, priv := true } .str
-      (.fcons { set := true } (.struct (.fcons {} .octets .fnil)) .fnil)))) {}
-    (.vcons (.bool true) (.vcons (.bytes [0xc3, 0xa9]) (.vcons (.vcons (.bytes [1, 2]) .vnil) .vnil))) = true := by decide
+/-- INTEGER content round trip for `*big.Int`: EVERY integer (two's complement, any size) -/
+theorem bigint_content_roundtrip (i : Int) : parseBigInt false (makeBigInt i) = .ok i := parseBigInt_makeBigInt i
+
+/-- OBJECT IDENTIFIER content round trip (valid first arcs, arcs < 2^31) -/
+theorem oid_content_roundtrip (l : List Int) (h : oidOK l = true) :
+    ∃ body, makeOID l = .ok body ∧ parseOID body = .ok (.oid l) := parseOID_makeOID l h
+
+/-- BIT STRING content round trip (`len(Bytes) = ⌈BitLength/8⌉`, zero padding bits) -/
+theorem bitstring_content_roundtrip (bs : Bytes) (n : Int) (h : bitsOK bs n = true) :
+    parseBitString (makeBits bs n) = .ok (.bits bs n) := parseBitString_makeBits bs n h
+
+/-- the DER sort of SET OF only permutes the element encodings, its result is ascending, and it is idempotent -/
+theorem set_sort_perm (l : List Bytes) : (sortEnc l).Perm l := perm_sortEnc l
+theorem set_sort_sorted (l : List Bytes) : SortedEnc (sortEnc l) := sorted_sortEnc l
+theorem set_sort_idem (l : List Bytes) : sortEnc (sortEnc l) = sortEnc l := sortEnc_sortEnc l
+
+/-! ### the hypotheses are satisfiable; the domain predicate is not vacuous and not too wide -/
+
+/-- a member of the domain using most of the type language: EXPLICIT Flag, OPTIONAL int with DEFAULT (left out), OPTIONAL
+    tagged string (left out) followed by a field with another tag, *big.Int, OID, BIT STRING, RawValue, SET OF int, SEQUENCE OF
+    string, nil []byte with omitempty -/
+def exSchema : Schema :=
+  .struct (.fcons { tag := some 0, explicit := true, optional := true } .flag
+    (.fcons { optional := true, defaultValue := some 5 } .int64
+    (.fcons { optional := true, tag := some 1, stringType := 12 } .str
+    (.fcons { tag := some 2 } .bigint
+    (.fcons {} .oid
+    (.fcons {} .bits
+    (.fcons { set := true } (.seqOf false .int64)
+    (.fcons {} (.seqOf false .str)
+    (.fcons { optional := true, omitEmpty := true, tag := some 7 } .octets
+    (.fcons {} .raw .fnil))))))))))
+
+def exVal : Val :=
+  .vcons (.bool true) (.vcons (.int 5) (.vcons (.bytes []) (.vcons (.int (-340282366920938463463374607431768211456))
+    (.vcons (.oid [2, 5, 29, 17]) (.vcons (.bits [0xa0] 3) (.vcons (.vcons (.int 3) (.vcons (.int 1) .vnil))
+    (.vcons (.vcons (.bytes [0x61]) (.vcons (.bytes [0xc3, 0xa9]) .vnil)) (.vcons .null
+    (.vcons (.raw 2 3 true [5, 0] [0xa3, 2, 5, 0]) .vnil)))))))))
+
+example : InDomain exSchema {} exVal = true := by decide
+example : omitted exSchema {} exVal = false := by decide
+/-- hypothesis `hr` of the theorems: trivially true for a present value, and for `rest = []` -/
+example (s : Schema) (p : Params) (v : Val) : omitted s p v = true → Skips s p [] := fun _ => Or.inl rfl
+
+/-- SET OF really comes back permuted: `≈` is not `=` -/
+example : marshal (.seqOf false .int64) { set := true } (.vcons (.int 3) (.vcons (.int 1) .vnil)) = .ok [0x31, 6, 2, 1, 1, 2, 1, 3] ∧
+    unmarshal false (.seqOf false .int64) { set := true } [0x31, 6, 2, 1, 1, 2, 1, 3] =
+      .ok (.vcons (.int 1) (.vcons (.int 3) .vnil), []) := by
+  constructor
+  · simp [marshal, makeField, mapElems, primMake, omitted, univ, marshalTag, makePrimBody, wrap, isSliceKind, lenZero,
+      zeroVal, sortEnc, insertSorted, encInt64_small 3 (by decide), encInt64_small 1 (by decide)]
+    decide
+  · decide
+
+/-- a member of `Exact`: no SET OF, non-nil slices -/
+example : InDomain (.struct (.fcons {} (.seqOf false .bigint) (.fcons { optional := true } .oid .fnil))) {}
+      (.vcons (.vcons (.int 70000) .vnil) (.vcons .null .vnil)) = true ∧
+    Exact (.struct (.fcons {} (.seqOf false .bigint) (.fcons { optional := true } .oid .fnil))) {}
+      (.vcons (.vcons (.int 70000) .vnil) (.vcons .null .vnil)) = true := by decide
+
+/-- the ambiguous grammar is outside the domain — an untagged OPTIONAL int left out in front of an int — and indeed does not
+    round-trip: the decoder gives the second field's value to the first and then fails -/
+example : InDomain (.struct (.fcons { optional := true } .int64 (.fcons {} .int64 .fnil))) {}
+      (.vcons (.int 0) (.vcons (.int 5) .vnil)) = false ∧
+    marshal (.struct (.fcons { optional := true } .int64 (.fcons {} .int64 .fnil))) {}
+      (.vcons (.int 0) (.vcons (.int 5) .vnil)) = .ok [0x30, 3, 2, 1, 5] ∧
+    unmarshal false (.struct (.fcons { optional := true } .int64 (.fcons {} .int64 .fnil))) {} [0x30, 3, 2, 1, 5] = .err := by
+  refine ⟨by decide, ?_, by decide⟩
+  simp [marshal, makeField, makeFields, primMake, omitted, univ, marshalTag, makePrimBody, wrap, isSliceKind, lenZero, zeroVal,
+    encInt64_small 5 (by decide)]
+  decide
+
+/-- … while the same types with distinguishing tags are inside -/
+example : InDomain (.struct (.fcons { optional := true, tag := some 0 } .int64 (.fcons {} .int64 .fnil))) {}
+      (.vcons (.int 0) (.vcons (.int 5) .vnil)) = true := by decide
+
+/-- an empty non-nil slice under omitempty is outside (it comes back nil, and a struct holding only it then re-marshals
+    differently); nil is inside -/
+example : InDomain (.octets) { optional := true, omitEmpty := true } (.bytes []) = false ∧
+    InDomain (.octets) { optional := true, omitEmpty := true } .null = true := by decide
 
 example : marshal (.struct (.fcons { tag := some 0, explicit := true } .bool (.fcons {} .str .fnil))) {}
     (.vcons (.bool true) (.vcons (.bytes [0x41]) .vnil)) = .ok [0x30, 8, 0xa0, 3, 1, 1, 0xff, 0x13, 1, 0x41] := by
   simp [marshal, makeField, makeFields, primMake, omitted, univ, marshalTag, stringTag, makePrimBody, makeString,
     wrap, isSliceKind, lenZero, zeroVal]
   decide
+
+example : oidOK [2, 999, 3, 2147483647] = true ∧ bitsOK [0xff, 0x80] 9 = true ∧ bitsOK [] 0 = true := by decide
+
+/-! ### what is still outside the theorems -/
+
+-- FULL (RawValue): `∀ RawValue r with r.FullBytes = nil`, Marshal builds the TLV from Class/Tag/IsCompound/Bytes and Unmarshal
+--   returns r with FullBytes filled in: a round trip up to FullBytes.  Also a RawValue FIELD WITH TAG PARAMETERS
+--   (`explicit,tag:N` equal to the value's own identifier).  Both are outside `leafOK` (`rawOK` wants the canonical FullBytes,
+--   `p.tag = none`).  Missing: a `VEq` clause identifying `raw c t k b []` with `raw c t k b (TLV c t k b)` and the
+--   `isRaw` arm of `explicitStage`.  Covered by T2 (bytes and decoded value compared with the Go code) only.
+-- FULL (omitempty, empty non-nil slice): `v ≈ v'` still holds (it comes back nil) but `Marshal v' = Marshal v` does NOT in
+--   general — see `omitempty_nonnil_not_idempotent` below — so `absentOK` asks for nil.
+-- FULL (EXPLICIT skip test): `skipsH` ignores the conjunct `len = 0 ∨ constructed` of the decoder's EXPLICIT match
+--   (conservative: a left-out `optional,explicit,tag:N` field followed by a PRIMITIVE non-empty element with class/tag N is
+--   excluded although the decoder would skip it).
+-- FULL (lengths): encodings of 2^31 bytes or more (Go `int` overflow is not modelled; hypothesis `hl`).
+-- FULL (permissive mode): the same statements for `unmarshal true` follow from `ZV.C20.perm_extends` (not imported here to keep
+--   the two packages independent).
+-- FULL (time.Time, interface{}, RawContent, int8/int16): outside the Lean model; time.Time is covered by the T3-only stream.
+
+/-- why `absentOK` wants nil under omitempty: an OPTIONAL struct holding only an empty NON-NIL `omitempty` slice is written
+    (`a0 00`), comes back as the zero struct, and is then left out: `Marshal (Unmarshal (Marshal v)) ≠ Marshal v`.
+    (Outside the documented domain of the property: the harness identifies nil and empty slices.) -/
+theorem omitempty_nonnil_not_idempotent :
+    let s : Schema := .struct (.fcons { optional := true, tag := some 0 }
+      (.struct (.fcons { optional := true, omitEmpty := true, tag := some 1 } .octets .fnil)) .fnil)
+    marshal s {} (.vcons (.vcons (.bytes []) .vnil) .vnil) = .ok [0x30, 2, 0xa0, 0] ∧
+    unmarshal false s {} [0x30, 2, 0xa0, 0] = .ok (.vcons (.vcons .null .vnil) .vnil, []) ∧
+    marshal s {} (.vcons (.vcons .null .vnil) .vnil) = .ok [0x30, 0] := by
+  refine ⟨?_, by decide, ?_⟩
+  · simp [marshal, makeField, makeFields, primMake, omitted, wrap, isSliceKind, lenZero, zeroVal]
+    decide
+  · simp [marshal, makeField, makeFields, omitted, wrap, isSliceKind, lenZero, zeroVal]
+    decide
 
 end ZV.C18
